@@ -355,6 +355,9 @@ def real_fixed(tier):
     yield dict(base, n=2, m=0, items=4, raising=[1], kinds={"1": "die"}, via="pipes")
     yield dict(base, n=1, m=1, items=3, raising=[0], kinds={"0": "die"}, via="pipes")
     yield dict(base, n=3, m=2, items=7, raising=[5], kinds={"5": "die"}, via="pipes")
+    # filter errors that pickle (they define __reduce__) but cannot be rebuilt from their .args: the caller must still get them
+    yield dict(base, n=2, m=0, items=4, raising=[2], kinds={"2": "Positional"}, via="pipes")
+    yield dict(base, n=2, m=1, items=3, raising=[1], kinds={"1": "JSONDecodeError"}, via="pipes")
     # one process with a positive maxtasksperchild through CobaMultiprocessor: still no process may handle more than m items
     yield dict(base, n=1, m=1, items=3, raising=[], kinds={}, via="coba", fan={"0": 1, "1": 1, "2": 1})
     yield dict(base, n=1, m=2, items=5, raising=[], kinds={}, via="coba", fan={str(i): 1 for i in range(5)})
